@@ -16,6 +16,10 @@ for _f in sorted(glob.glob(os.path.join(_here, "c[0-9][0-9]", "prop.py"))):
     _p.setdefault("pkg", "c" + _pid[1:])
     PROPS[_pid] = _p
 
+# Only properties the lead has reviewed and run at several seeds are claimed in MANIFEST.json.
+READY = ["C14", "C18"]
+CLAIMED = {p: PROPS[p] for p in READY if p in PROPS}
+
 NOT_APPLICABLE_REASONS = {}
 PENDING = "check not built yet (work in progress; see DESIGN.md section 8)"
-NOT_APPLICABLE = {p: NOT_APPLICABLE_REASONS.get(p, PENDING) for p in ALL if p not in PROPS}
+NOT_APPLICABLE = {p: NOT_APPLICABLE_REASONS.get(p, PENDING) for p in ALL if p not in CLAIMED}
